@@ -274,6 +274,7 @@ class Fn:
             for x in self.succ[i]:
                 self.pred[x].append(i)
         self._reach = None
+        self._has_inlined = any(b.get('inl') for b in self.blocks)
         self._dom = None
         self._defs = None
         self._call_at = {c.bb: c for c in self.calls}
@@ -302,13 +303,18 @@ class Fn:
     def reachable(self):
         """blocks reachable from entry along normal edges"""
         if self._reach is None:
-            self._reach = self.reach_from([0])
+            self._reach = self.reach_from([0], _plain=True)
         return self._reach
 
-    def reach_from(self, starts, avoid_exit=(), avoid_enter=()):
+    def reach_from(self, starts, avoid_exit=(), avoid_enter=(), _plain=False):
         """Set of blocks *entered* starting by entering each of `starts`.
         Blocks in avoid_exit may be entered but their terminator is not passed;
-        blocks in avoid_enter are never entered."""
+        blocks in avoid_enter are never entered.
+        In a body into which new helpers were inlined (rules/inline.py) the search is path-sensitive for constants and enum
+        variants (reach_from_cp): a helper that returned `Err(..)` makes the former caller's `?` take its Break edge only - as
+        if the `?` still sat in this body.  On a tree without new functions nothing is inlined and this is the plain search."""
+        if not _plain and self._has_inlined:
+            return reach_from_cp(self, starts, avoid_exit=avoid_exit, avoid_enter=avoid_enter)
         avoid_exit = set(avoid_exit)
         avoid_enter = set(avoid_enter)
         seen = set()
@@ -2108,6 +2114,12 @@ def decision_leaves(prog, f, depth=4, out=None, sites=None, _seen=None):
 
 
 
+def _whole_local(o):
+    """the local of an operand that names a whole local (no projection), else None"""
+    p = op_place(o)
+    return p[0] if p is not None and not p[1] else None
+
+
 def reach_from_cp(f, starts, avoid_exit=(), avoid_enter=(), max_states=20000):
     """Fn.reach_from with a little path sensitivity: integer / bool constants assigned to whole locals (`flag = true`, copies of
     such locals, `Not` of them) are tracked along each path, and a switch on a local whose value is known on that path takes
@@ -2121,8 +2133,8 @@ def reach_from_cp(f, starts, avoid_exit=(), avoid_enter=(), max_states=20000):
         rel = set()
         for i in f.reachable():
             t = f.blocks[i]['t']
-            if t['k'] == 'switch' and op_local(t['o']) is not None:
-                rel.add(op_local(t['o']))
+            if t['k'] == 'switch' and _whole_local(t['o']) is not None:
+                rel.add(_whole_local(t['o']))
         changed = True
         while changed:
             changed = False
@@ -2133,15 +2145,19 @@ def reach_from_cp(f, starts, avoid_exit=(), avoid_enter=(), max_states=20000):
                         r = s['r']
                         src = None
                         if r['k'] == 'use' or (r['k'] == 'un' and r.get('op') == 'Not'):
-                            src = op_local(r['o'])
+                            src = _whole_local(r['o'])
+                            if src is None and r['k'] == 'use' and op_place(r['o']) is not None:
+                                src = op_place(r['o'])[0]
+                        elif r['k'] == 'agg' and len(r.get('ops', [])) == 1:
+                            src = _whole_local(r['ops'][0])
                         elif r['k'] == 'discr' and not r['p'][1]:
                             src = r['p'][0]
                         if src is not None and src not in rel:
                             rel.add(src)
                             changed = True
                 t = b['t']
-                if t['k'] == 'call' and t.get('d') and not t['d'][1] and t['d'][0] in rel and t['f'].get('name') == 'branch' and t.get('args'):
-                    src = op_local(t['args'][0])
+                if t['k'] == 'call' and t.get('d') and not t['d'][1] and t['d'][0] in rel and t['f'].get('name') in ('branch', 'with_context', 'context', 'map_err', 'map', 'inspect_err', 'inspect') and t.get('args'):
+                    src = _whole_local(t['args'][0])
                     if src is not None and src not in rel:
                         rel.add(src)
                         changed = True
@@ -2161,7 +2177,7 @@ def reach_from_cp(f, starts, avoid_exit=(), avoid_enter=(), max_states=20000):
         out.add(bb)
         n += 1
         if n > max_states:
-            return f.reach_from(starts, avoid_exit=avoid_exit, avoid_enter=avoid_enter)
+            return f.reach_from(starts, avoid_exit=avoid_exit, avoid_enter=avoid_enter, _plain=True)
         if bb in avoid_exit:
             continue
         e = dict(env)
@@ -2179,15 +2195,28 @@ def reach_from_cp(f, starts, avoid_exit=(), avoid_enter=(), max_states=20000):
                 if k is not None and isinstance(k, dict) and 'int' in k:
                     val = int(k['int'])
                 else:
-                    l = op_local(r['o'])
+                    l = _whole_local(r['o'])
                     if l is not None and l in e:
                         val = e[l]
+                    else:
+                        # `move ((poll as Ready).0)`: the remembered payload of a known variant
+                        pl = op_place(r['o'])
+                        if pl is not None and pl[1] and isinstance(e.get(pl[0]), tuple) and len(e[pl[0]]) > 2 and e[pl[0]][2] is not None \
+                           and len([x for x in pl[1] if isinstance(x, dict) and 'f' in x]) == 1 and not [x for x in pl[1] if x == '*']:
+                            val = e[pl[0]][2]
             elif r['k'] == 'un' and r.get('op') == 'Not':
-                l = op_local(r['o'])
+                l = _whole_local(r['o'])
                 if l is not None and l in e and e[l] in (0, 1):
                     val = 1 - e[l]
             elif r['k'] == 'agg' and r.get('ak') == 'adt' and 'vd' in r and r.get('variant'):
-                val = ('var', r['vd'])      # `Err(..)`, `Ok(..)`, `Some(..)`: the variant is known on this path
+                # `Err(..)`, `Ok(..)`, `Some(..)`: the variant is known on this path; a single payload with a known variant is
+                # remembered too (`Poll::Ready(result)` of an inlined async helper)
+                inner = None
+                if len(r.get('ops', [])) == 1:
+                    li = _whole_local(r['ops'][0])
+                    if li is not None and isinstance(e.get(li), tuple):
+                        inner = e[li]
+                val = ('var', r['vd'], inner)
             elif r['k'] == 'discr' and not r['p'][1] and isinstance(e.get(r['p'][0]), tuple):
                 val = e[r['p'][0]][1]
             if val is None or d[0] not in rel:
@@ -2206,8 +2235,13 @@ def reach_from_cp(f, starts, avoid_exit=(), avoid_enter=(), max_states=20000):
                     e[t['d'][0]] = ('var', 1 if nm == 'from_residual' else 0)
                 elif ty.startswith('std::option::Option'):
                     e[t['d'][0]] = ('var', 0 if nm == 'from_residual' else 1)
+            if nm in ('with_context', 'context', 'map_err', 'map', 'inspect_err', 'inspect') and t.get('args') and t['d'][0] in rel:
+                # adapters that keep the variant (`Err` stays `Err`)
+                l = _whole_local(t['args'][0])
+                if l is not None and isinstance(e.get(l), tuple):
+                    e[t['d'][0]] = ('var', e[l][1], None)
             if t['f'].get('name') == 'branch' and t.get('args'):
-                l = op_local(t['args'][0])
+                l = _whole_local(t['args'][0])
                 if l is not None and isinstance(e.get(l), tuple):
                     v = e[l][1]
                     if f.locals[l]['s'].startswith('std::option::Option'):
@@ -2216,7 +2250,7 @@ def reach_from_cp(f, starts, avoid_exit=(), avoid_enter=(), max_states=20000):
                         e[t['d'][0]] = ('var', v)
         succ = list(f.succ[bb])
         if t['k'] == 'switch':
-            l = op_local(t['o'])
+            l = _whole_local(t['o'])
             if l is not None and l in e:
                 tg = None
                 for v, x in t['vals']:
